@@ -10,9 +10,32 @@ DTYPES = {"int": np.int64, "float": float, "uint8": np.uint8, "bool": bool, "int
 DTYPE_NAMES = ["int", "float", "uint8", "bool", "int32", "float32"]
 
 
+def relayout(A, key=None):
+    """The same array values in one of the memory layouts a caller may hand over: C order (half of the cases), Fortran
+    order, or a strided view into a larger buffer that is otherwise filled with ones.  The choice is a function of the
+    array content (so a stored case replays identically).  Always writable."""
+    A = np.asarray(A)
+    if A.ndim not in (1, 2) or A.size == 0:
+        return A
+    if key is None:
+        key = int(np.count_nonzero(A)) + 3 * A.shape[0] + int(np.count_nonzero(A[0] if A.ndim == 2 else A[:1]))
+    k = key % 4
+    if k < 2:
+        return A
+    if k == 2:
+        return np.asfortranarray(A).copy(order="F") if A.ndim == 2 else A[::-1].copy()[::-1]
+    if A.ndim == 2:
+        big = np.ones((2 * A.shape[0] + 1, 2 * A.shape[1] + 1), dtype=A.dtype)
+        big[1::2, 1::2] = A
+        return big[1::2, 1::2]
+    big = np.ones(3 * A.shape[0] + 2, dtype=A.dtype)
+    big[1::3][: A.shape[0]] = A
+    return big[1::3][: A.shape[0]]
+
+
 def to_np(rows, dtype="int"):
-    """0/1 adjacency in any of the dtypes a caller may reasonably use for a 0/1 matrix."""
-    return G.matrix_from_rows(rows, dtype=DTYPES.get(dtype, dtype))
+    """0/1 adjacency in any of the dtypes - and memory layouts - a caller may reasonably use for a 0/1 matrix."""
+    return relayout(G.matrix_from_rows(rows, dtype=DTYPES.get(dtype, dtype)))
 
 
 def case_graph(case, key="A"):
